@@ -35,6 +35,7 @@ type held[T signal.SignalTypes] struct {
 	serial   int
 	hs       hist
 	handle   int
+	pool     int
 }
 
 // C10: a single caller; histories of get/use/put on one pool with several
@@ -54,30 +55,50 @@ func (h *H[T]) C10(rc *runCtx) *Violation {
 	rc.cfg = spA("alloc=%+v meanops=%d maxout=%d %s", a, cont, maxOut, env)
 	sim.Tracef("config: T=%s %s", h.name, rc.cfg)
 
-	pa := signal.PoolAlloc[T](a)
-	shared := &pa
+	// Pool 0 is the pool under observation. In a third of the runs a second
+	// pool of the same element type and the same total capacity but another
+	// shape lives next to it (state that a modified library keeps per
+	// package, per type or per size must not leak between pools).
+	as := []signal.Allocator{a}
+	if prog.Draw(3) == 2 && a.Capacity >= 1 {
+		b := signal.Allocator{Channels: a.Capacity, Capacity: a.Channels}
+		if b.Channels > 4*rc.b.MaxC {
+			b = signal.Allocator{Channels: 1, Capacity: a.Channels * a.Capacity}
+		}
+		b.Length = prog.Draw(b.Capacity + 1)
+		as = append(as, b)
+		rc.tally("second_pool", "yes")
+	} else {
+		rc.tally("second_pool", "no")
+	}
+	pas := make([]signal.PoolAllocator[T], len(as))
+	for i := range as {
+		pas[i] = signal.PoolAlloc[T](as[i])
+	}
 	// The three ways a caller can hold the allocator: the original value, a
 	// copy by value, a shared pointer.
-	get := func(handle int) (b *signal.Buffer[T], pv any) {
+	get := func(pool, handle int) (b *signal.Buffer[T], pv any) {
 		defer func() { pv = recover() }()
 		switch handle {
 		case 0:
-			return pa.Get(), nil
+			return pas[pool].Get(), nil
 		case 1:
-			cp := pa
+			cp := pas[pool]
 			return cp.Get(), nil
 		}
+		shared := &pas[pool]
 		return shared.Get(), nil
 	}
-	put := func(handle int, b *signal.Buffer[T]) (pv any) {
+	put := func(pool, handle int, b *signal.Buffer[T]) (pv any) {
 		defer func() { pv = recover() }()
 		switch handle {
 		case 0:
-			pa.Put(b)
+			pas[pool].Put(b)
 		case 1:
-			cp := pa
+			cp := pas[pool]
 			cp.Put(b)
 		default:
+			shared := &pas[pool]
 			shared.Put(b)
 		}
 		return nil
@@ -119,8 +140,12 @@ func (h *H[T]) C10(rc *runCtx) *Violation {
 	doGet := func() *Violation {
 		handle := prog.Draw(3)
 		stamp := prog.Draw(4) != 3
+		pool := 0
+		if len(as) > 1 && prog.Draw(3) == 2 {
+			pool = 1
+		}
 		availBefore := sim.Available()
-		b, pv := get(handle)
+		b, pv := get(pool, handle)
 		rc.ops++
 		if pv != nil {
 			return violf("get-panic", "Get panicked: %v", pv)
@@ -131,11 +156,11 @@ func (h *H[T]) C10(rc *runCtx) *Violation {
 			}
 		}
 		serial++
-		hb := &held[T]{hdr: b, cur: b, serial: serial, handle: handle}
+		hb := &held[T]{hdr: b, cur: b, serial: serial, handle: handle, pool: pool}
 		id := sim.ObjID(unsafe.Pointer(b))
 		sim.Mix(0x9000 | uint64(id)<<16)
-		sim.Tracef("op: Get via handle %d -> buffer #%d (obj#%d)", handle, serial, id)
-		if v := freshCheck(a, b); v != nil {
+		sim.Tracef("op: pool %d Get via handle %d -> buffer #%d (obj#%d)", pool, handle, serial, id)
+		if v := freshCheck(as[pool], b); v != nil {
 			if rec, ok := putHist[id]; ok {
 				v.Detail = spA(" [this buffer was put back earlier; history before that put: %+v]", rec.hs)
 			}
@@ -156,7 +181,7 @@ func (h *H[T]) C10(rc *runCtx) *Violation {
 			if rec.hs.dirtBeyond {
 				rc.probes[pReuseDirtBeyondLen]++
 			}
-			if a.Length > 0 {
+			if as[pool].Length > 0 {
 				rc.probes[pReuseLenPositive]++
 			}
 			if rec.handle == 1 || handle == 1 {
@@ -202,8 +227,8 @@ func (h *H[T]) C10(rc *runCtx) *Violation {
 		handle := prog.Draw(3)
 		id := sim.ObjID(unsafe.Pointer(hb.cur))
 		sim.Mix(0xa000 | uint64(id)<<16)
-		sim.Tracef("op: Put(#%d) via handle %d (obj#%d len=%d cap=%d; history %+v)", hb.serial, handle, id, hb.cur.Len(), hb.cur.Cap(), hb.hs)
-		pv := put(handle, hb.cur)
+		sim.Tracef("op: pool %d Put(#%d) via handle %d (obj#%d len=%d cap=%d; history %+v)", hb.pool, hb.serial, handle, id, hb.cur.Len(), hb.cur.Cap(), hb.hs)
+		pv := put(hb.pool, handle, hb.cur)
 		rc.ops++
 		if pv != nil {
 			// A rejected put is legal (C10 constrains what is handed out, not
